@@ -307,10 +307,10 @@ Proof.
       - rewrite (Rabs_pos_eq t) in E2 by lra. rewrite Rabs_pos_eq in E2 by lra. lra.
       - rewrite (Rabs_left t) in E1 by lra. lra. }
     rewrite (Rabs_left t) by lra. rewrite (Rabs_left (1 + t)) by lra.
-    rewrite (beyond_form (- t) (- (1 + t)) d n1 n2); try lra.
-    + field. lra.
-    + rewrite En1. ring.
-    + rewrite En2. ring.
+    assert (EA : n1 * n1 = - t * - t + d * d) by (rewrite En1; ring).
+    assert (EB : n2 * n2 = - (1 + t) * - (1 + t) + d * d) by (rewrite En2; ring).
+    rewrite (beyond_form (- t) (- (1 + t)) d n1 n2 Hd Hs1 Hs2 ltac:(lra) ltac:(lra) ltac:(lra) EA EB ltac:(lra)).
+    field. lra.
   - (* 1 < |t| but |1+t| >= |t| : t > 1 ; then mask3 holds *)
     apply Rltb_true in E1. apply Rltb_false in E2.
     assert (Ht : 1 < t).
@@ -323,7 +323,7 @@ Proof.
     rewrite E3, E4. simpl.
     replace (d * d * (t + (1 + t)) / (n1 * n2 * (t * n2 + (1 + t) * n1)))
       with (d * d * ((1 + t) + t) / (n2 * n1 * ((1 + t) * n1 + t * n2))) by (f_equal; ring).
-    rewrite (beyond_form (1 + t) t d n2 n1); try lra.
+    rewrite (beyond_form (1 + t) t d n2 n1 Hd Hs2 Hs1 ltac:(lra) ltac:(lra) ltac:(lra) En2 En1 ltac:(lra)). reflexivity.
   - (* |t| <= 1, |1+t| < |t| : -1 <= t < -1/2 ; not mask3 *)
     apply Rltb_false in E1. apply Rltb_true in E2.
     assert (Ht : -1 <= t < 0).
@@ -349,7 +349,7 @@ Proof.
       apply Rltb_true in E3. rewrite (Rabs_pos_eq t) by lra.
       replace (d * d * (t + (1 + t)) / (n1 * n2 * (t * n2 + (1 + t) * n1)))
         with (d * d * ((1 + t) + t) / (n2 * n1 * ((1 + t) * n1 + t * n2))) by (f_equal; ring).
-      rewrite (beyond_form (1 + t) t d n2 n1); try lra.
+      rewrite (beyond_form (1 + t) t d n2 n1 Hd Hs2 Hs1 ltac:(lra) ltac:(lra) ltac:(lra) En2 En1 ltac:(lra)). reflexivity.
     + apply Rltb_true in E3. apply Rltb_false in E4. rewrite (Rabs_pos_eq t) in E4 by lra. lra.
     + apply Rltb_false in E3. rewrite (Rabs_left1 t) by lra.
       assert (0 <= - t / n1) by (apply Rmult_le_pos; [lra | left; apply Rinv_0_lt_compat; lra]).
